@@ -51,7 +51,7 @@ CONSTANTS
   Reaper,        \* BOOLEAN: the window-stall reaper may fire
   Legal,         \* BOOLEAN: the peer sends only legal WINDOW_UPDATE / SETTINGS
   BurstMin,      \* frames a peer must send back to back before deviation LoopBudget can apply
-  Deviations     \* open findings switched on (known_findings.json): "LoopBudget"
+  Deviations     \* open findings switched on (known_findings.json): "LoopBudget", "ResetDropsFrameTail"
 
 VARIABLES
   pend,      \* settings the peer sent and sozu has not acknowledged yet (FIFO)
@@ -61,7 +61,7 @@ VARIABLES
   strWin,    \* [ids -> Int] sozu's stream send windows, as the peer accounts them
   ids,       \* streams that exist or existed
   sst,       \* [ids -> ...] sozu's sending half: "wait" headers owed, "open", "done" END_STREAM sent, "reset"
-  pst,       \* [ids -> ...] the peer's sending half: "idle", "open", "done"
+  pst,       \* [ids -> ...] the peer's sending half: "idle", "open", "done"; "cancel": the peer reset the stream (RST_STREAM)
   rem,       \* [ids -> Nat] body bytes sozu still has to send
   up,        \* [ids -> Nat] body bytes the peer still has to send
   nextOurs,  \* Role = "client": the lowest identifier sozu may use for its next stream
@@ -99,7 +99,7 @@ Thr == RecvConn \div 2                   \* connection credit threshold (h2.rs h
 Overflows(w, n) == w > 0 /\ n > MaxWin - w
 
 \* streams that count against MAX_CONCURRENT_STREAMS: open or half-closed
-Active == {s \in ids : sst[s] # "reset" /\ ~(sst[s] = "done" /\ pst[s] = "done")}
+Active == {s \in ids : sst[s] # "reset" /\ pst[s] # "cancel" /\ ~(sst[s] = "done" /\ pst[s] = "done")}
 \* streams on which sozu may still send frames
 Live(s) == s \in ids /\ sst[s] \in {"wait", "open"}
 Blocked(s) == s \in ids /\ sst[s] = "open" /\ rem[s] > 0 /\ Min(strWin[s], connWin) <= 0
@@ -201,6 +201,17 @@ E_PeerStarve(s) ==
   /\ UNCHANGED <<pend, nset, eff, connWin, strWin, ids, sst, pst, rem, up, nextOurs, lastPeer, cont, needUpd,
                  advInit, advConn, advStr, oweConn, oweStr, enl, ourSet, errOwed, dead>>
 Peer_Starve(s) == G_PeerStarve(s) /\ E_PeerStarve(s)
+
+\* RST_STREAM from the peer: it gives the stream up.  sozu owes nothing more on it; frames of the stream that were
+\* already on their way may still arrive (they obey the windows like any other), so sozu's half is left as it is.
+G_PeerRst(s) == s \in ids /\ sst[s] # "reset" /\ pst[s] # "cancel"
+E_PeerRst(s) ==
+  /\ pst' = [pst EXCEPT ![s] = "cancel"] /\ up' = [up EXCEPT ![s] = 0] /\ Quiet
+  /\ UNCHANGED <<pend, nset, eff, connWin, strWin, ids, sst, rem, nextOurs, lastPeer, cont, needUpd, advInit, advConn,
+                 advStr, oweConn, oweStr, enl, ourSet, starved, errOwed, dead>>
+Peer_Rst(s) == G_PeerRst(s) /\ E_PeerRst(s)
+\* ... and it did so while sozu was in the middle of that stream's body
+CutMidBody == \E s \in ids : pst[s] = "cancel" /\ sst[s] = "open" /\ rem[s] > 0
 
 -----------------------------------------------------------------------------
 (* sozu *)
@@ -333,7 +344,7 @@ SozuOwes ==
   \/ ~dead /\ cont # 0
   \/ ~dead /\ \E s \in ids :
        \/ sst[s] = "wait" /\ pst[s] = "done"                                  \* response head
-       \/ sst[s] = "open" /\ (rem[s] = 0 \/ Min(strWin[s], connWin) > 0)      \* body / END_STREAM
+       \/ sst[s] = "open" /\ pst[s] # "cancel" /\ (rem[s] = 0 \/ Min(strWin[s], connWin) > 0)   \* body / END_STREAM
   \/ ~dead /\ (enl > 0 \/ (oweConn >= Thr /\ Thr > 0))
   \/ ~dead /\ \E s \in ids : pst[s] = "open" /\ up[s] > 0 /\ oweStr[s] > 0
 
@@ -351,7 +362,7 @@ E_Idle == burst' = 0 /\ last' = NoFrame /\ stall' = FALSE /\ UNCHANGED dropped
 Env_Idle == G_Idle /\ burst > 0 /\ E_Idle
 
 \* Everything is finished: all streams fully sent and answered, or reset with a reason
-Finished == \A s \in ids : \/ sst[s] = "reset"
+Finished == \A s \in ids : \/ sst[s] = "reset" \/ pst[s] = "cancel"
                            \/ sst[s] = "done" /\ rem[s] = 0 /\ pst[s] = "done"
 
 \* sozu closes the connection.  Fine once it is dead (GOAWAY) or everything is finished.
@@ -367,6 +378,17 @@ E_SozuClose ==
                  advConn, advStr, oweConn, oweStr, enl, ourSet, starved>>
 Sozu_Close == G_SozuClose /\ ~dead /\ E_SozuClose
 
+\* Deviation ResetDropsFrameTail (open finding): the peer resets a stream while the socket is blocked in the middle of
+\* one of that stream's frames; remove_dead_stream forgets the half-written frame (expect_write = None, the stream's
+\* buffer is recycled), its remaining bytes never go out and whatever sozu writes next is read by the peer as the
+\* rest of that frame: the framing of the whole connection is lost (spec/H2Wire.tla, Peer_Reset).
+G_SozuGarble == "ResetDropsFrameTail" \in Deviations /\ CutMidBody
+E_SozuGarble ==
+  /\ last' = [NoFrame EXCEPT !.k = "Z"] /\ stall' = FALSE /\ UNCHANGED <<burst, dropped>>
+  /\ UNCHANGED <<pend, nset, eff, connWin, strWin, ids, sst, pst, rem, up, nextOurs, lastPeer, cont, needUpd, advInit,
+                 advConn, advStr, oweConn, oweStr, enl, ourSet, starved, errOwed, dead>>
+Sozu_Garble == G_SozuGarble /\ E_SozuGarble
+
 -----------------------------------------------------------------------------
 HdrArgs == {<<n, eh, upd>> : n \in HdrLens, eh \in BOOLEAN, upd \in {-1} \cup {v.tbl : v \in SettingsVals}}
 
@@ -380,6 +402,7 @@ SozuNext ==
   \/ \E s \in Ids, n \in 0..MaxWin, es \in BOOLEAN : Sozu_SendData(s, n, es)
   \/ \E x \in Ids \cup {0}, n \in 1..MaxWin : Sozu_WindowUpdate(x, n)
   \/ ("LoopBudget" \in Deviations /\ ~Finished /\ Sozu_Close)
+  \/ Sozu_Garble
 
 PeerNext ==
   \/ \E v \in SettingsVals : Peer_Settings(v)
@@ -388,6 +411,7 @@ PeerNext ==
   \/ \E x \in Ids \cup {0}, n \in Grants : Peer_WindowUpdate(x, n)
   \/ \E s \in Ids, n \in 0..MaxWin, es \in BOOLEAN : Peer_SendData(s, n, es)
   \/ \E s \in Ids : Peer_Starve(s)
+  \/ \E s \in Ids : Peer_Rst(s)
 
 Next == SozuNext \/ PeerNext \/ Env_Stall \/ Env_Idle
 Spec == Init /\ [][Next]_vars
@@ -399,7 +423,7 @@ SettingsOK(v) == v.initWin \in 0..MaxWin /\ v.maxFrame \in Nat /\ v.maxStreams \
 TypeOK ==
   /\ SettingsOK(eff) /\ \A i \in 1..Len(pend) : SettingsOK(pend[i])
   /\ ids \subseteq Ids /\ DOMAIN strWin = ids /\ DOMAIN sst = ids /\ DOMAIN rem = ids
-  /\ \A s \in ids : sst[s] \in {"wait", "open", "done", "reset"} /\ pst[s] \in {"idle", "open", "done"}
+  /\ \A s \in ids : sst[s] \in {"wait", "open", "done", "reset"} /\ pst[s] \in {"idle", "open", "done", "cancel"}
                     /\ rem[s] \in Nat /\ up[s] \in Nat /\ oweStr[s] \in Nat
   /\ connWin <= MaxWin /\ \A s \in ids : strWin[s] <= MaxWin
   /\ cont \in ids \cup {0} /\ errOwed \subseteq ids \cup {0}
@@ -480,7 +504,8 @@ FairSpec == Spec /\ WF_vars(SozuNext) /\ WF_vars(PeerGrantsBlocked) /\ WF_vars(P
 
 SentAll(s) == s \in ids /\ sst[s] = "done" /\ rem[s] = 0
 PeerOpen(s) == s \in ids /\ pst[s] = "open"
-PeerDone(s) == s \in ids /\ pst[s] = "done"
-P_C14_BodiesComplete == \A s \in Ids : [](s \in ids => <>(SentAll(s) \/ dead))
+PeerDone(s) == s \in ids /\ pst[s] \in {"done", "cancel"}
+PeerGaveUp(s) == s \in ids /\ pst[s] = "cancel"
+P_C14_BodiesComplete == \A s \in Ids : [](s \in ids => <>(SentAll(s) \/ dead \/ PeerGaveUp(s)))
 P_C14_PeerNeverStuck == \A s \in Ids : [](PeerOpen(s) => <>(PeerDone(s) \/ dead))
 =============================================================================
